@@ -357,6 +357,30 @@ pub fn run(ctx: &Ctx, st: &mut Stats, id: &str) {
             check(ctx, st, &c, id);
         }
     }
+    // exhaustive date sweep 1600..2399 for a few sites (closes the date quantifier per site)
+    let nsweep = ((ctx.pick(16, 320) as f64 * ctx.scale).ceil() as u64).max(1);
+    for i in 0..nsweep {
+        if !ctx.mine(i) {
+            continue;
+        }
+        let mut rs = Rng::new(ctx.seed, stream + 50, i);
+        let mut c = gen_case(&mut rs, id);
+        if i % 3 == 0 {
+            c.site = corpus[((i / 3 + ctx.seed * 3) as usize) % corpus.len()];
+        }
+        // natural zone for the sweeps (arbitrary zones are covered by the random part)
+        c.site.gmt = X((c.site.lon.0 / 15.0).round().clamp(-12.0, 12.0));
+        c.weather = None;
+        c.dangle = None;
+        st.sample(|| json!({"date_sweep": {"site": c.site, "p": c.p}, "dates": "1600-01-01..2399-12-31 (every day)"}));
+        let before = st.decided;
+        for day in day_lo()..=day_hi() {
+            c.date = d2s(from_ce(day));
+            check(ctx, st, &c, id);
+        }
+        st.nontrivial_by_construction(st.decided - before);
+        st.count("date_sweep_sites");
+    }
     for k in 0..n {
         let c = gen_case(&mut r, id);
         let before = st.decided;
@@ -371,6 +395,6 @@ pub fn run(ctx: &Ctx, st: &mut Stats, id: &str) {
     }
     st.extra.insert(
         "rule".into(),
-        json!("seeded random + fixed corpus; a case is non-trivial when the judged event exists that day (oracle evaluated on at least one reported time); distinct by 64-bit hash of the full input"),
+        json!("exhaustive date sweeps 1600..2399 for a few sites + seeded random + fixed corpus; a case is non-trivial when the judged event exists that day (oracle evaluated on at least one reported time); distinct by 64-bit hash of the full input"),
     );
 }
